@@ -2,7 +2,10 @@
     loops; the loops run on explicit fuel chosen from the bitmap's length).
     Arithmetic is unbounded [Z] (int32 cannot overflow when 64*len < 2^31,
     the size hypothesis of every theorem). [& ^63] on an int32 is
-    [Z.land _ (-64)] (two's complement). *)
+    [Z.land _ (-64)] (two's complement).
+    Model/BitmapNext32.v is the same code with every int32 wrap written out;
+    Proofs/NextTotal.v proves the two equal for every int32 [i], [end] under
+    that size hypothesis, and characterises both outside the property's domain. *)
 From Coq Require Import ZArith List Bool.
 From Low Require Import Lib.MachInt Lib.Bits Lib.BitSeq.
 Import ListNotations.
